@@ -127,6 +127,32 @@ def check(repo, rep):
     # ---------------------------------------------------------------- (a) taint of per-run tokenizer state from an arbitrary earlier run
     d = feed(rep, repo, 'C20', 'general')
     ntaint = sum(1 for o in rep.obligations)
+    # the finalisation of a token generator (a `finally` / `with` exit around its yields) runs when the generator is closed or
+    # collected -- for an abandoned generator that is at an arbitrary moment of a LATER run of the same tokenizer: it must not write
+    # the tokenizer's state
+    tkc = cx.cls('core', 'StreamTokenizer', required=False)
+    ngen = 0
+    if tkc is not None:
+        stored_by = {}
+        for fn in tkc.body:
+            if isinstance(fn, ast.FunctionDef) and fn.args.args:
+                me = fn.args.args[0].arg
+                stored_by[fn.name] = [t for n in ast.walk(fn) for tg in (n.targets if isinstance(n, ast.Assign) else ([n.target] if isinstance(n, (ast.AugAssign, ast.AnnAssign)) else []))
+                                      for t in ast.walk(tg) if isinstance(t, ast.Attribute) and isinstance(t.value, ast.Name) and t.value.id == me and isinstance(t.ctx, ast.Store)]
+        for fn in tkc.body:
+            if not (isinstance(fn, ast.FunctionDef) and any(isinstance(x, (ast.Yield, ast.YieldFrom)) for x in ast.walk(fn))):
+                continue
+            ngen += 1
+            me = fn.args.args[0].arg if fn.args.args else 'self'
+            for t in ast.walk(fn):
+                if isinstance(t, ast.Try) and t.finalbody and any(isinstance(x, (ast.Yield, ast.YieldFrom)) for b in t.body for x in ast.walk(b)):
+                    writes = [x for b in t.finalbody for x in ast.walk(b) if isinstance(x, ast.Attribute) and isinstance(x.value, ast.Name) and x.value.id == me and isinstance(x.ctx, ast.Store)]
+                    calls = [x.func.attr for b in t.finalbody for x in ast.walk(b) if isinstance(x, ast.Call) and isinstance(x.func, ast.Attribute) and isinstance(x.func.value, ast.Name)
+                             and x.func.value.id == me and stored_by.get(x.func.attr)]
+                    rep.ob('the finalisation of the token generator does not write the tokenizer\'s state (it runs whenever an abandoned generator is closed or collected, possibly in the middle of a later run)',
+                           not writes and not calls, cx.where('core', t.finalbody[0]), 'StreamTokenizer.%s:finally-writes-state' % fn.name,
+                           'finally writes %s' % sorted({w.attr for w in writes} | set(calls)))
+    rep.extra['token_generators_scanned_for_finalisers'] = ngen
     # every run starts from an arbitrary object state; the other tokenizer obligations (C01-C04) were proved from that same start
     for r in d['runs']:
         if 'error' in r or r.get('c04'):
